@@ -154,6 +154,10 @@ def normalize_hostname(hostname, normalize_amp=True):
     hostname = CONTROL_CHARS_RE.sub("", hostname)
     hostname = hostname.strip().lower()
 
+    # NOTE: same order as `normalize_url`: punycode is decoded first, lest a
+    # label such as "xn--amp--epa" ("amp-é") is not seen for what it is
+    hostname = decode_punycode_hostname(hostname)
+
     pattern = IRRELEVANT_SUBDOMAIN_AMP_RE if normalize_amp else IRRELEVANT_SUBDOMAIN_RE
 
     # NOTE: a hostname made of nothing else (e.g. "www.") is kept as is
@@ -161,8 +165,6 @@ def normalize_hostname(hostname, normalize_amp=True):
 
     if normalize_amp and hostname.startswith("amp-"):
         hostname = hostname[4:]
-
-    hostname = decode_punycode_hostname(hostname)
 
     return hostname
 
